@@ -1368,3 +1368,6 @@ func (h *MyHost) Cure(uuid string, gno int64) { delete(h.PoisonSQL, txnKey{uuid,
 
 // PoisonSQL2Clear removes every poison of the host.
 func (h *MyHost) PoisonSQL2Clear() { h.PoisonSQL = map[txnKey]int{} }
+
+// OpenConns is the number of client connections currently open at the fake servers.
+func (w *MyWorld) OpenConns() int { w.mu.Lock(); defer w.mu.Unlock(); return len(w.conns) }
